@@ -10,6 +10,8 @@ import (
 	sdkmath "cosmossdk.io/math"
 	sdk "github.com/cosmos/cosmos-sdk/types"
 	authtypes "github.com/cosmos/cosmos-sdk/x/auth/types"
+	sdkparams "github.com/cosmos/cosmos-sdk/x/params"
+	paramproposal "github.com/cosmos/cosmos-sdk/x/params/types/proposal"
 
 	coinomicskeeper "github.com/haqq-network/haqq/x/coinomics/keeper"
 	coinomicstypes "github.com/haqq-network/haqq/x/coinomics/types"
@@ -96,6 +98,13 @@ func c13Gen(r *rand.Rand, tier string) []Case {
 	var out []Case
 	// year boundaries of interest (unix seconds): 2023→2024 (leap), 2024→2025, 2099→2100 (not leap), 1999→2000 (leap)
 	bounds := []int64{1704067200, 1735689600, 4102444800, 946684800, 1709164800 /* 2024-02-29 */}
+	// fixed case: minting, switched off and on again by governance proposals (and, for comparison, through the keeper)
+	for _, via := range []string{" # via=gov", ""} {
+		out = append(out, Case{"reset 1 7800000000000000000 0 100000000000000000000000000000 20000000000000000000000000000",
+			"blk 1700000000000 4000000000000000000000000000 -", "blk 1700000006000 4000000000000000000000000000 -", "blk 1700000012000 4000000000000000000000000000 -",
+			"enable 0" + via, "blk 1700003600000 4000000000000000000000000000 -", "blk 1700007200000 4000000000000000000000000000 -",
+			"enable 1" + via, "blk 1700007206000 4000000000000000000000000000 -", "blk 1700007212000 4000000000000000000000000000 -"})
+	}
 	for i := 0; i < n; i++ {
 		var c Case
 		rc := pick(r, []*big.Int{new(big.Int).Mul(big.NewInt(78), e(17)), big.NewInt(0), e(18), new(big.Int).Mul(big.NewInt(15_000_000_000), e(18)), new(big.Int).Neg(e(18)), big.NewInt(1), new(big.Int).Rand(r, e(21)), big.NewInt(int64(r.Intn(1000)))})
@@ -148,7 +157,11 @@ func c13Gen(r *rand.Rand, tier string) []Case {
 			}
 			if r.Intn(9) == 0 {
 				en = 1 - en
-				c = append(c, fmt.Sprintf("enable %d", en))
+				if r.Intn(2) == 0 {
+					c = append(c, fmt.Sprintf("enable %d # via=gov", en))
+				} else {
+					c = append(c, fmt.Sprintf("enable %d", en))
+				}
 			}
 			if r.Intn(15) == 0 {
 				maxS = new(big.Int).Add(maxS, new(big.Int).Rand(r, e(24)))
@@ -218,9 +231,23 @@ func c13Exec(c Case) (outs []string, fails []Failure, tags []string) {
 			}
 			out = "ok"
 		case "enable":
-			p := k.GetParams(ctx)
-			p.EnableCoinomics = f[1] == "1"
-			k.SetParams(ctx, p)
+			if vmKV(f)["via"] == "gov" {
+				// the route a live chain takes: a governance parameter-change proposal, whose handler writes the module's
+				// parameter subspace directly (no keeper method runs)
+				val := "false"
+				if f[1] == "1" {
+					val = "true"
+				}
+				h := sdkparams.NewParamChangeProposalHandler(app.ParamsKeeper)
+				if err := h(ctx, paramproposal.NewParameterChangeProposal("coinomics", "switch", []paramproposal.ParamChange{paramproposal.NewParamChange(coinomicstypes.ModuleName, string(coinomicstypes.ParamStoreKeyEnableCoinomics), val)})); err != nil {
+					panic(err)
+				}
+				tags = append(tags, "switched-by-governance-proposal")
+			} else {
+				p := k.GetParams(ctx)
+				p.EnableCoinomics = f[1] == "1"
+				k.SetParams(ctx, p)
+			}
 			out = "ok"
 		case "setmax":
 			k.SetMaxSupply(ctx, sdk.NewCoin("aISLM", sdkmath.NewIntFromBigInt(mustBig(f[1]))))
